@@ -124,6 +124,7 @@ inductive Err where
   | index      -- "expected an indexable value" / "Unable to index a Range with …"
   | slice      -- "expected a sliceable value"
   | access     -- "expected a value that supports '.' access"
+  | utf8       -- "indexing with (…) would result in invalid UTF-8 data" (/repo 36e891c)
   | compile    -- OutOfPositionMatchEllipsis / MultipleMatchEllipses
   deriving DecidableEq, Repr, Inhabited
 
@@ -180,6 +181,17 @@ def strBounds (bs : List Nat) (i j : Nat) : Val :=
   if i ≤ j && j ≤ bs.length && boundary bs i && boundary bs j then .str ((bs.drop i).take (j - i))
   else .null
 
+/-- the Str arms of `run_temp_index` / `run_slice` since /repo 36e891c: bounds that are not valid
+for the string (out of range, or cutting a character) raise instead of yielding Null -/
+def strCut (bs : List Nat) (i j : Nat) : Except Err Val :=
+  match strBounds bs i j with
+  | .null => .error .utf8
+  | v => .ok v
+
+/-- no UTF-8 continuation byte: every byte position is a character boundary (a valid UTF-8
+string with this property is an ASCII string) -/
+def noCont (bs : List Nat) : Bool := bs.all (fun b => !isCont b)
+
 def pairOf (e : Val × Val) : Val := .tuple [e.1, e.2]
 
 /-- `run_temp_index` -/
@@ -187,7 +199,7 @@ def tempIndex (v : Val) (i : Int) : Except Err Val :=
   match v with
   | .list xs => .ok (xs[sidx i xs.length]?.getD .null)
   | .tuple xs => .ok (xs[sidx i xs.length]?.getD .null)
-  | .str bs => .ok (strBounds bs (sidx i bs.length) (sidx i bs.length + 1))
+  | .str bs => strCut bs (sidx i bs.length) (sidx i bs.length + 1)
   | .map es => .ok ((es[sidx i es.length]?.map pairOf).getD .null)
   | .range a e =>
     -- `as_bounded_range`: missing bounds are i64::MIN / i64::MAX (kept symbolic here)
@@ -217,7 +229,7 @@ def sliceFrom (C : Cfg) (v : Val) (i : Int) : Except Err Val :=
   match v with
   | .list xs => let k := sidx i xs.length; .ok (if k ≤ xs.length then .list (xs.drop k) else .null)
   | .tuple xs => let k := sidx i xs.length; .ok (if k ≤ xs.length then .tuple (xs.drop k) else .null)
-  | .str bs => .ok (strBounds bs (sidx i bs.length) bs.length)
+  | .str bs => strCut bs (sidx i bs.length) bs.length
   | .map es => let k := sidx i es.length; .ok (if k ≤ es.length then .map (es.drop k) else .null)
   | .range (some a) (some (e, incl)) =>
     if C.rangeSlices then
@@ -232,7 +244,7 @@ def sliceTo (C : Cfg) (v : Val) (i : Int) : Except Err Val :=
   match v with
   | .list xs => let k := sidx i xs.length; .ok (if k ≤ xs.length then .list (xs.take k) else .null)
   | .tuple xs => let k := sidx i xs.length; .ok (if k ≤ xs.length then .tuple (xs.take k) else .null)
-  | .str bs => .ok (strBounds bs 0 (sidx i bs.length))
+  | .str bs => strCut bs 0 (sidx i bs.length)
   | .map es => let k := sidx i es.length; .ok (if k ≤ es.length then .map (es.take k) else .null)
   | .range (some a) (some (e, incl)) =>
     if C.rangeSlices then
@@ -480,13 +492,16 @@ def evalMatch (F : FloatOps) (C : Cfg) (sub : Subj) (arms : List Arm) (ρ : Env)
 /-! ### the declarative definition (the language guide) -/
 
 /-- the sequence view of a value: its elements and how a sub-range `[i, j)` of them is packaged
-for `rest...`.  Lists and tuples are what the guide documents; strings (1-byte slices) and maps
+for `rest...`.  Lists and tuples are what the guide documents; ASCII strings (1-byte slices; a string with a multi-byte character has no view: indexing it by
+byte raises, F-C03-10) and maps
 (`(key, value)` tuples) are how the implementation extends it, the guide being silent. Numbers,
 booleans, null and ranges have no view here (ranges: see `Props/C03`, `range_*`). -/
 def view : Val → Option (List Val × (Nat → Nat → Val))
   | .tuple xs => some (xs, fun i j => .tuple ((xs.drop i).take (j - i)))
   | .list xs => some (xs, fun i j => .list ((xs.drop i).take (j - i)))
-  | .str bs => some ((List.range bs.length).map (fun i => strBounds bs i (i + 1)), fun i j => strBounds bs i j)
+  | .str bs =>
+    if noCont bs then some ((List.range bs.length).map (fun i => strBounds bs i (i + 1)), fun i j => strBounds bs i j)
+    else none
   | .map es => some (es.map pairOf, fun i j => .map ((es.drop i).take (j - i)))
   | _ => none
 
@@ -567,20 +582,22 @@ def wfL : List Pat → Bool
 end
 
 mutual
-/-- no range anywhere inside the value (ranges are sized and indexable but not sliceable; they are
-kept out of the declarative theorems and treated separately) -/
-def noRange : Val → Bool
+/-- the values the declarative theorems speak about: no range anywhere inside (ranges are sized
+and indexable, sliceable only since fix-5; treated separately) and no string with a multi-byte
+character (patterns index strings by byte and raise when a character would be cut, F-C03-10) -/
+def plain : Val → Bool
   | .range _ _ => false
-  | .tuple xs => noRangeL xs
-  | .list xs => noRangeL xs
-  | .map es => noRangeM es
+  | .str bs => noCont bs
+  | .tuple xs => plainL xs
+  | .list xs => plainL xs
+  | .map es => plainM es
   | _ => true
-def noRangeL : List Val → Bool
+def plainL : List Val → Bool
   | [] => true
-  | x :: xs => noRange x && noRangeL xs
-def noRangeM : List (Val × Val) → Bool
+  | x :: xs => plain x && plainL xs
+def plainM : List (Val × Val) → Bool
   | [] => true
-  | (k, v) :: es => noRange k && noRange v && noRangeM es
+  | (k, v) :: es => plain k && plain v && plainM es
 end
 
 mutual
